@@ -1161,10 +1161,16 @@ _gen_step('inverse')
 _gen_step('eigen')
 
 
-@gen('kfac.base_preconditioner:BaseKFACPreconditioner.memory_usage')
-def _gen_mem(rng, model):
+def _gen_mem_variant(variant):
+    @gen(f'kfac.base_preconditioner:BaseKFACPreconditioner.memory_usage#{variant}')
+    def g(rng, model):
+        return _gen_mem(rng, model, variant)
+    return g
+
+
+def _gen_mem(rng, model, variant=None):
     from kfac.base_preconditioner import BaseKFACPreconditioner
-    p = trained_precond(rng)
+    p = trained_precond(rng, **({'compute_method': variant} if variant else {}))
     if rng.random() < 0.5:
         p._vp_model.zero_grad()
         p._vp_model(p._vp_x).sum().backward()
@@ -1239,3 +1245,7 @@ def _gen_fill_triu(rng, model):
     packed = get_triu(t)
     shape = tuple(t.shape) if rng.random() < 0.9 else (3,)
     return Case(fill_triu, {'shape': shape, 'triu_tensor': packed}, [shape, packed], {}, note=f'n={t.shape[0]} {t.dtype}')
+
+
+_gen_mem_variant('inverse')
+_gen_mem_variant('eigen')
